@@ -311,6 +311,7 @@ pub fn run(ctx: &mut Ctx) {
             let (opname, out) = one_step(ctx, &mut rng, &pool);
             ctx.count(&format!("op.{}", opname));
             ctx.count("steps");
+            ctx.evals += 1;
             history.push(opname.clone());
             if let StepOut::Docs(docs) = out {
                 for (bytes, tree) in docs.into_iter().take(3) {
